@@ -295,19 +295,19 @@ class C17(PropBase):
 
     # ------------------------------------------------------------------ correspondence
     def canon_impl(self, case, ans, profile):
-        if case.startswith("B "):
+        if case.startswith(("B ", "J ", "R ")):
             return ""
         parts = ans.split("|")
         # the eight paths + the lookup(kind) flag + std::path's components of ROOT.join(rel) and of its parent
         return "|".join(parts[:2] + [x for x in parts[2:] if x.startswith("P")])
 
     def canon_model(self, case, ans):
-        return "" if case.startswith("B ") else ans
+        return "" if case.startswith(("B ", "J ", "R ")) else ans
 
     # ------------------------------------------------------------------ oracle (independent of the model)
     def oracle(self, case, ans, profile):
-        if case.startswith("B "):
-            return None                       # url-probe-only case (replay)
+        if case.startswith(("B ", "J ", "R ")):
+            return None                       # probe-only case (replay)
         if ans.startswith("P;;"):
             return "a lookup builder panicked: " + ans[3:200]
         parts = ans.split("|")
@@ -568,7 +568,7 @@ class C17(PropBase):
         return list(dict.fromkeys(cases))
 
     def fs_probe(self, ctx):
-        cases = self.fs_cases(ctx["seed"]) if not ctx.get("replay") else [c for c in ctx["cases"] if c and not c.startswith(("B ", "J "))]
+        cases = self.fs_cases(ctx["seed"]) if not ctx.get("replay") else [c for c in ctx["cases"] if c and not c.startswith(("B ", "J ", "R "))]
         out = []
         stats = {"returned": 0, "created": 0}
         n_cmp = [0]
